@@ -122,6 +122,20 @@ def check(repo, res, tier):
     k, o, r = run({"lb": list(lb)})
     ok = k == "return" and len(r) == 1 and _rows(r[0].get("bounds")) == [[lb[i], None] for i in range(n)]
     res.check(ok, "R-LAYOUT", f, "lower-only", "lower bounds only: rows (lb[i], None)", "lower bounds only -> %s" % (r[0].get("bounds") if r else k,), node=f.node)
+    k, o, r = run({"ub": list(ub)})
+    ok = k == "return" and len(r) == 1 and _rows(r[0].get("bounds")) == [[None, ub[i]] for i in range(n)]
+    res.check(ok, "R-LAYOUT", f, "upper-only", "upper bounds only: rows (None, ub[i])", "upper bounds only (ub=%s) -> %s: the given limits are not the upper ends of the box"
+              % (ub, _rows(r[0].get("bounds")) if r else k,), node=f.node)
+    # every one-sided / two-sided form for arrays as well as lists, and the start handed over unchanged
+    for tag, a in (("upper-only(array)", {"ub": NumArr(list(ub))}), ("lower-only(array)", {"lb": NumArr(list(lb))}), ("both(array)", {"lb": NumArr(list(lb)), "ub": NumArr(list(ub))}),
+                   ("both(tuple)", {"lb": tuple(lb), "ub": tuple(ub)})):
+        k, o, r = run(a)
+        if k == "undecided":
+            res.undecided("R-LAYOUT", f, tag, "outside the modelled subset: %s" % o)
+            continue
+        wantb = [[lb[i] if "lb" in a else None, ub[i] if "ub" in a else None] for i in range(n)]
+        ok = k == "return" and len(r) == 1 and _rows(r[0].get("bounds")) == wantb and r[0].get("x0") == x
+        res.check(ok, "R-LAYOUT", f, tag, "rows (lb[i] or None, ub[i] or None); start unchanged", "%s -> bounds %s, start %s" % (tag, _rows(r[0].get("bounds")) if r else k, r[0].get("x0") if r else None), node=f.node)
     # concrete bounds, including the values a guard is most likely to mishandle: 0, negative, infinite
     inf = float("inf")
     lbn, ubn = [0.0, 1.5, -2.0], [0.0, 3.0, inf]
